@@ -541,7 +541,10 @@ C09Fails(me, x, now, res, c0, f0, c1, f1) ==
          THEN {<<"C09_Entitled", x.typ \o "-not-by-the-member-itself">>} ELSE {})
  \cup (IF x.s # applied
          THEN {<<"C09_SigCoversTerms",
-                 IF Covered(x.s) # Covered(applied) THEN "signed-field"
+                 IF Covered(x.s) # Covered(applied)
+                   THEN (IF [x.s EXCEPT !.rem = {}, !.join = {}, !.leav = {}] = [applied EXCEPT !.rem = {}, !.join = {}, !.leav = {}]
+                            /\ x.s.rem \cup x.s.join \cup x.s.leav = applied.rem \cup applied.join \cup applied.leav
+                         THEN "list-membership" ELSE "signed-field")
                  ELSE IF x.s.seed # applied.seed THEN "genesis-seed-not-signed"
                  ELSE "participant-key-not-signed">>}
          ELSE {})
@@ -609,6 +612,22 @@ Mutations(t, now) ==
         \cup (IF t.ep > 1 THEN {[t EXCEPT !.rem = @ \cup {"p5"}]} ELSE {})   \* outsider among the remaining
   IN IF Rich THEN core \cup extra ELSE core \cup {SubstT(t, "p3", "g3")}
 
+(* Boundary shifts: one participant moves across an adjacent list boundary while the concatenation       *)
+(* joining ++ remaining ++ leaving keeps its order (lists are ordered by address): head of Leaving ->    *)
+(* tail of Remaining, tail of Remaining -> head of Leaving, tail of Joining -> head of Remaining, head   *)
+(* of Remaining -> tail of Joining.  The signed bytes must say WHICH list a participant is in.           *)
+MaxA(S) == CHOOSE p \in S : \A q \in S : Addr[q] <= Addr[p]
+MinA(S) == CHOOSE p \in S : \A q \in S : Addr[p] <= Addr[q]
+Shifts(t) ==
+  IF t.ep <= 1 THEN {}
+  ELSE (IF t.leav # {} THEN {[t EXCEPT !.leav = @ \ {MinA(t.leav)}, !.rem = @ \cup {MinA(t.leav)}]} ELSE {})
+       \cup (IF t.rem # {} THEN {[t EXCEPT !.rem = @ \ {MaxA(t.rem)}, !.leav = @ \cup {MaxA(t.rem)}],
+                                 [t EXCEPT !.rem = @ \ {MinA(t.rem)}, !.join = @ \cup {MinA(t.rem)}]} ELSE {})
+       \cup (IF t.join # {} THEN {[t EXCEPT !.join = @ \ {MaxA(t.join)}, !.rem = @ \cup {MaxA(t.join)}]} ELSE {})
+NodeCount(t) == Cardinality(t.join) + Cardinality(t.rem)
+\* a threshold that is admissible before and after the shift, so that only the signature can refuse it
+ShiftThr(t, u) == IF MinT(NodeCount(t)) > MinT(NodeCount(u)) THEN MinT(NodeCount(t)) ELSE MinT(NodeCount(u))
+
 Pkt(typ, t, s, claimed, skey, arg, sarg) ==
   [k |-> "pkt", typ |-> typ, t |-> t, s |-> s, claimed |-> claimed, skey |-> skey, arg |-> arg, sarg |-> sarg]
 
@@ -636,7 +655,9 @@ ProposalPackets(c, f, now) ==
                           Pkt("proposal", [t EXCEPT !.thr = @ + 1], t, Addr[t.ldr], Key[t.ldr], "none", "none"),
                           Pkt("proposal", [t EXCEPT !.tmo = IF @ = LongTmo THEN now + 1 ELSE LongTmo], t, Addr[t.ldr], Key[t.ldr], "none", "none")}
                          : t \in Bm}
-  IN honest \cup mutated \cup forged \cup tampered
+      shifted == UNION {{Pkt("proposal", [u EXCEPT !.thr = ShiftThr(t, u)], [t EXCEPT !.thr = ShiftThr(t, u)],
+                             Addr[t.ldr], Key[t.ldr], "none", "none") : u \in Shifts(t)} : t \in Bl}
+  IN honest \cup mutated \cup forged \cup tampered \cup shifted
 
 \* accept / reject / execute / abort relative to the attempt the node currently holds
 FollowUpPackets(c, f, now) ==
@@ -644,6 +665,7 @@ FollowUpPackets(c, f, now) ==
       t == TermsOf(d)
       signedVariants == {t, [t EXCEPT !.seed = IF @ = "sx" THEN "s1" ELSE "sx"], [t EXCEPT !.thr = @ + 1]}
                         \cup (IF Rich THEN {[t EXCEPT !.ep = @ + 1], SubstT(t, "p3", "g3")} ELSE {})
+                        \cup Shifts(t)
       \* the member whose votes are forged / tampered with (all of them in the complete catalogue)
       victims == IF Rich THEN d.rem \cup d.join \cup d.leav \cup {"p5"}
                  ELSE IF d.rem \ {d.ldr} = {} THEN {"p5"}
